@@ -28,6 +28,7 @@ func main() {
 	budget := flag.Int("budget", 0, "wall-clock budget per entry in seconds (0 = none)")
 	tier := flag.Int("tier", 0, "0 quick / 1 thorough (read by harnesses through vTier)")
 	noMerge := flag.Bool("nomerge", false, "disable if-conversion of pure diamonds")
+	sendSites := flag.Bool("sendsites", false, "list every call site that writes to a transport or stream and exit")
 	out := flag.String("out", "", "result JSON file")
 	dump := flag.String("dump", "", "dump SSA of function and exit")
 	flag.Parse()
@@ -64,6 +65,10 @@ func main() {
 	mainPkg := spkgs[0]
 	fmt.Fprintf(os.Stderr, "loaded %s in %.1fs\n", mainPkg.Pkg.Path(), time.Since(t0).Seconds())
 
+	if *sendSites {
+		listSendSites(prog, mainPkg)
+		return
+	}
 	if *dump != "" {
 		fn := mainPkg.Func(*dump)
 		if fn == nil {
